@@ -669,7 +669,7 @@ inductive SubKind where
   | fixed (n : Nat)
   /-- one octet, read as `== 1` -/
   | bool
-  /-- revocation key: class (0x80 / 0xC0), algorithm, 20-octet fingerprint -/
+  /-- revocation key: class (0x80 / 0xC0), algorithm, fingerprint of 20 (v4) or 32 (v5 / v6) octets -/
   | revKey
   | notationData
   /-- preferred key server, policy URI: UTF-8 -/
@@ -711,7 +711,9 @@ def normKind (emb : Bytes → Option Bytes) (k : SubKind) (raw : Bytes) : Option
     | _ => none
   | .revKey =>
     match raw with
-    | c :: _ => if (c.toNat = 128 ∨ c.toNat = 192) ∧ raw.length = 22 then some raw else none
+    | c :: _ =>
+      if (c.toNat = 128 ∨ c.toNat = 192) ∧
+          (raw.length = 2 + Gen.revKeyFpLenA ∨ raw.length = 2 + Gen.revKeyFpLenB) then some raw else none
     | [] => none
   | .notationData =>
     match raw with
